@@ -1960,10 +1960,10 @@ func (x *Exec) checkCallsites(fr *frame, cc *ssa.CallCommon, args []sval, st *St
 
 
 func callsiteName(cc *ssa.CallCommon) string {
-	if p, ok := cc.Value.(*ssa.Parameter); ok {
-		return "param:" + p.Name()
-	} else if cc.IsInvoke() {
+	if cc.IsInvoke() {
 		return "(" + cc.Value.Type().String() + ")." + cc.Method.Name()
+	} else if p, ok := cc.Value.(*ssa.Parameter); ok {
+		return "param:" + p.Name()
 	} else if f := cc.StaticCallee(); f != nil {
 		return f.String()
 	}
